@@ -27,7 +27,7 @@ META = {
 CLOSURES = {'PY': ('PercusYevick', 'PY'), 'HNC': ('HyperNettedChain', 'HNC'),
             'MSA': ('MeanSphericalApproximation', 'MSA'), 'MS': ('MartynovSarkisov', 'MS')}
 GAMMAS = [-1e3, -2.0, -1.0, -0.5, -4e-3, 0.0, 1e-3, 0.5, 1.0, 3.0, 40.0, 1e3]
-US = [-2.0, -0.3, -1e-3, -7e-4, 0.0, 3e-4, 2e-3, 0.3, 2.0, 1e6]
+US = [-2.0, -0.3, -1e-3, -7e-4, -1e-11, 0.0, 3e-4, 2e-3, 0.3, 2.0, 1e6]      # -1e-11 next to 1e6: a tail 17 decades below the core value
 U_INF = float('inf')          # HardSphere(high_value=np.inf) is a legal hard core; used for every closure except MS (K1 expression is NaN there)
 SIGMAS = [1.0, 1.3, 0.75]
 DR = 0.1
@@ -310,7 +310,83 @@ def case_rechain(rec, c):
     rec.outcome(core.digest([cname, hc, sigma, 'rechain', o2_snap]))
 
 
-KINDS = {'rechain': case_rechain, 'product': case_product, 'alias': case_alias, 'vectors': case_vectors, 'linear': case_linear}
+def case_two(rec, c):
+    """Two closure objects of one class with different hard-core flags, both constructed before either is used (all four
+    construction/use orders), on a potential that is finite inside the core; and a valid call after a call that failed."""
+    cname, sigma = c['closure'], c['sigma']
+    r = np.array([0.3 * sigma, sigma - DR, sigma + DR, 1.7 * sigma, 2.9 * sigma])
+    u = np.array([1.7, 0.9, -0.4, 0.25, -0.05])
+    g = np.array([0.7, -0.3, 0.45, -0.2, 0.1])
+    variants = ['inside', 'outside'] if cname == 'MS' else ['inside']
+
+    def ok(out, hc):
+        for v in variants:
+            w, s_, coremask = ref.ref_closure(cname, hc, r, sigma, g, u, ms_variant=v)
+            good = True
+            for i in range(len(r)):
+                if coremask[i]:
+                    good = good and (out[i] == -1.0 - g[i])
+                else:
+                    good = good and same(float(out[i]), float(w[i]), tol_for(cname, float(g[i]), float(u[i]), float(w[i])))
+            if good:
+                return True
+        return False
+
+    rec.state()
+    for order in ('TF', 'FT'):
+        for alias in (False, True):
+            objs = {}
+            for f in order:
+                objs[f] = make(cname, alias if f == 'T' else False, f == 'T')
+                objs[f].potential = u.copy()
+                objs[f].sigma = sigma
+            for f in order + order[::-1]:
+                with np.errstate(all='ignore'):
+                    out = np.array(objs[f].calculate(r.copy(), g.copy()), dtype=float)
+                rec.trans()
+                rec.trace()
+                if cname == 'MS' and not (f == 'T'):
+                    continue                    # outside-core values of MS are K1's business; only the core rule is examined for MS
+                if cname == 'MS':
+                    core_ok = all(out[i] == -1.0 - g[i] for i in range(len(r)) if r[i] < sigma - 1e-6)
+                    if not core_ok:
+                        rec.fail(c, 'MartynovSarkisov(apply_hard_core=True) constructed %s another instance with the flag off does not return -1-gamma in the core'
+                                 % ('before' if order[0] == 'T' else 'after'), tags(cname, 'value', 'core'))
+                        return
+                    continue
+                if not ok(out, f == 'T'):
+                    rec.fail(c, '%s: with one instance constructed with apply_hard_core=True and one with False (construction order %s), the instance with flag %s '
+                             'returns %r' % (CLOSURES[cname][0], order, f == 'T', out.tolist()), tags(cname, 'value', 'two-objects'))
+                    return
+    # a call that fails (gamma of the wrong length) must not change what the next valid call returns
+    for hc in (False, True):
+        C = make(cname, False, hc)
+        C.potential = u.copy()
+        C.sigma = sigma
+        try:
+            with np.errstate(all='ignore'):
+                C.calculate(r.copy(), g[:-1].copy())
+        except Exception:
+            pass
+        try:
+            with np.errstate(all='ignore'):
+                out = np.array(C.calculate(r.copy(), g.copy()), dtype=float)
+        except Exception as e:
+            rec.fail(c, '%s(hard_core=%s): a valid call after a failed one raised %s' % (CLOSURES[cname][0], hc, type(e).__name__), tags(cname, 'raises', 'any'))
+            return
+        rec.trans(2)
+        if cname == 'MS':
+            if hc and not all(out[i] == -1.0 - g[i] for i in range(len(r)) if r[i] < sigma - 1e-6):
+                rec.fail(c, 'MartynovSarkisov(hard_core=True): after a failed call the core rule is no longer applied', tags(cname, 'value', 'core'))
+            continue
+        if not ok(out, hc):
+            rec.fail(c, '%s(hard_core=%s): after a call that failed (gamma of the wrong length) the next valid call returns %r'
+                     % (CLOSURES[cname][0], hc, out.tolist()), tags(cname, 'value', 'after-failure'))
+            return
+    rec.outcome(core.digest([cname, sigma, 'two']))
+
+
+KINDS = {'two': case_two, 'rechain': case_rechain, 'product': case_product, 'alias': case_alias, 'vectors': case_vectors, 'linear': case_linear}
 
 
 def replay(rec, case):
@@ -337,6 +413,9 @@ def run(rec, tier, seed):
                         case_product(rec, {'kind': 'product', 'closure': cname, 'alias': False, 'hc': hc, 'sigma': sigma, 'flagrepr': fr})
                     case_alias(rec, {'kind': 'alias', 'closure': cname, 'hc': hc, 'sigma': sigma})
                     case_rechain(rec, {'kind': 'rechain', 'closure': cname, 'hc': hc, 'sigma': sigma})
+                if hc:
+                    for sigma in sig:
+                        case_two(rec, {'kind': 'two', 'closure': cname, 'sigma': sigma})
                 case_vectors(rec, {'kind': 'vectors', 'closure': cname, 'hc': hc})
                 case_linear(rec, {'kind': 'linear', 'closure': cname, 'hc': hc})
     rec.note('alphabets', {'closures': list(CLOSURES), 'gammas': GAMMAS, 'u': US, 'sigmas': sig,
